@@ -33,7 +33,22 @@ def main():
             rp = json.load(open(a.replay))
             mod.replay(ctx, rp)
         else:
-            mod.run(ctx)
+            try:
+                mod.run(ctx)
+            except Exception as e:  # noqa
+                # an exception that escapes a check from inside the library (an unguarded call on a generated, in-scope
+                # input that the validated tree answers) is a failing input, not a harness error; anything else is ours
+                frames = traceback.extract_tb(e.__traceback__)
+                lib = [f for f in frames if os.sep + 'seismic_zfp' + os.sep in f.filename and os.sep + 'harness' + os.sep not in f.filename]
+                if not lib:
+                    raise
+                traceback.print_exc()
+                where = [f for f in frames if os.sep + 'sgzv' + os.sep in f.filename][-1:]
+                ctx.fail(f'library call raised {type(e).__name__}: {str(e)[:160]} (at {os.path.basename(lib[-1].filename)}:{lib[-1].lineno}'
+                         + (f', called from {os.path.basename(where[0].filename)}:{where[0].lineno} {where[0].line}' if where else '') + ')'
+                         ' - a call the check makes on every run and the validated tree answers',
+                         {'exception': type(e).__name__, 'message': str(e)[:400], 'seed': seed, 'tier': a.tier,
+                          'traceback': traceback.format_exception(type(e), e, e.__traceback__)[-6:]})
         code = core.finish(ctx, audit, mod.ASSUMPTIONS, mod.RULE, getattr(mod, 'extra_coverage', lambda c: None)(ctx))
     except Exception:
         traceback.print_exc()
